@@ -1,6 +1,8 @@
 (* C12 - the round trip through the pipeline with the walk and the dispatch stages
    instantiated by the port tree.  What is left as a premise about a stage is
-   print/scan (C10). *)
+   print/scan (C10).  switches_ok: the decidable conditions on the 'enabled by' properties of
+   the sub-tree ports (TreeApp.v) - the walk stage needs them, wf_app gives the distinct
+   addresses. *)
 From Coq Require Import List ZArith Bool Lia Arith Permutation.
 From RtoscV Require Import Ports.NameModel Ports.WalkModel Ports.DispatchModel Ports.TreeProofs
      Ports.DispatchWalk Ports.NamesModel.
@@ -17,6 +19,7 @@ Theorem roundtrip_pipeline_tree_walk :
   forall text print_lines scan_text hp tid t apropos fuel F st ps,
     let a := app_of_tree t in
     names_ok (sports_of t) = true -> tree_ok (to_tree hp tid (sports_of t)) -> Forall pt_wf t ->
+    switches_ok t = true ->
     NoDup (map dir_addr (dirs_root t)) -> NoDup (app_addresses a) ->
     print_scan_hypothesis text print_lines scan_text ->
     full_conditions a st -> comparable a st -> cstrings st ->
@@ -31,12 +34,13 @@ Theorem roundtrip_pipeline_tree_walk :
                 restored_val (port_at a q) (val_at st q) (val_at fin q).
 Proof.
   intros text print_lines scan_text hp tid t apropos fuel F st ps a
-         Hnames Htree Hwf Hdirs Haddr H10 Hfull Hcmp Hstr Hdecl Hp Hr.
+         Hnames Htree Hwf Hsw Hdirs Haddr H10 Hfull Hcmp Hstr Hdecl Hp Hr.
   apply (roundtrip_pipeline_tree text (fun _ s => walk_tree t s) print_lines scan_text hp tid t apropos fuel F st ps);
     try assumption.
   split; [|exact H10].
-  apply walk_stage; try assumption.
-  destruct Hfull as (WF & _). intros i Hi. apply (w_shape _ WF i Hi).
+  destruct Hfull as (WF & _).
+  apply walk_stage; try assumption; [exact (w_paths _ WF)|].
+  intros i Hi. apply (w_shape _ WF i Hi).
 Qed.
 
 (* the example of TreeStage.v satisfies the two further hypotheses, and the walk with
@@ -44,10 +48,94 @@ Qed.
    the port below the pointer *)
 Theorem pipeline_tree_walk_nonvacuous :
   NoDup (map dir_addr (dirs_root fx_tree)) /\ NoDup (app_addresses (app_of_tree fx_tree)) /\
-  walk_tree fx_tree fx_state = [0; 1; 2]%nat /\
-  walk_tree fx_tree (initial (app_of_tree fx_tree)) = [0; 2]%nat.
+  walk_tree fx_tree fx_state = [0; 1; 2; 3]%nat /\
+  walk_tree fx_tree (initial (app_of_tree fx_tree)) = [0; 2; 3]%nat.
 Proof.
   split; [vm_compute; repeat constructor; simpl; intuition discriminate|].
   split; [vm_compute; repeat constructor; simpl; intuition discriminate|].
   split; vm_compute; reflexivity.
+Qed.
+
+(* ---- the inner-switch form of 'enabled by' ------------------------------------------------------
+   { sub/ (enabled by "sub/on") -> { on::T:F, x::i },  a#2/ (enabled by "a#2/on") -> { y::i, on::T:F } }:
+   a0/ is switched by a0/on, a1/ by a1/on.  The side conditions of walk_stage hold.  While a switch
+   is off the walk does not descend but is applied to the switch itself: from a default-initialised
+   instance it reaches /sub/on, /a0/on, /a1/on only; with /sub/on and /a1/on on also /sub/x and
+   /a1/y, not /a0/y - in both states exactly the live ports. *)
+Local Open Scope Z_scope.
+Definition sw_tree : list pt :=
+  [ PSub [115; 117; 98] None None (Some [115; 117; 98; 47; 111; 110])
+      [ PLeaf [111; 110] None (ld KT [VT false]); PLeaf [120] None (ld KI [VI 3]) ];
+    PSub [97] (Some 2%nat) None (Some [97; 35; 50; 47; 111; 110])
+      [ PLeaf [121] None (ld KI [VI 3]); PLeaf [111; 110] None (ld KT [VT false]) ] ].
+Definition sw_state : state := [[VT true]; [VI 3]; [VI 3]; [VT false]; [VI 4]; [VT true]].
+
+Theorem walk_inner_switch_nonvacuous :
+  let a := app_of_tree sw_tree in
+  names_ok (sports_of sw_tree) = true /\ switches_ok sw_tree = true /\
+  NoDup (map dir_addr (dirs_root sw_tree)) /\ NoDup (map p_path a) /\ NoDup (app_addresses a) /\
+  (forall i, (i < length a)%nat -> (0 < p_len (port_at a i))%nat) /\
+  map (fun p => (p_path p, p_soft p)) a =
+    [ ([47; 115; 117; 98; 47; 111; 110], []);       ([47; 115; 117; 98; 47; 120], [0%nat]);
+      ([47; 97; 48; 47; 121], [3%nat]);             ([47; 97; 48; 47; 111; 110], []);
+      ([47; 97; 49; 47; 121], [5%nat]);             ([47; 97; 49; 47; 111; 110], []) ] /\
+  walk_tree sw_tree (initial a) = [0; 3; 5]%nat /\
+  filter (live a (initial a)) (seq 0 (length a)) = [0; 3; 5]%nat /\
+  walk_tree sw_tree sw_state = [0; 1; 3; 4; 5]%nat /\
+  filter (live a sw_state) (seq 0 (length a)) = [0; 1; 3; 4; 5]%nat.
+Proof.
+  intros a. unfold a.
+  split; [vm_compute; reflexivity|]. split; [vm_compute; reflexivity|].
+  split; [vm_compute; repeat constructor; simpl; intuition discriminate|].
+  split; [vm_compute; repeat constructor; simpl; intuition discriminate|].
+  split; [vm_compute; repeat constructor; simpl; intuition discriminate|].
+  split.
+  { intros i Hi. change (length (app_of_tree sw_tree)) with 6%nat in Hi.
+    do 6 (destruct i as [|i]; [vm_compute; lia|]). lia. }
+  repeat split; vm_compute; reflexivity.
+Qed.
+
+(* ---- the rSelf form of 'enabled by' ---------------------------------------------------------------
+   { x::i,
+     d/ -> { self: (enabled by "on"), on::T:F, y::i, e/ -> { z::i } },
+     b/ (enabled by "b/on") -> { self: (enabled by "on"), w::i, on::T:F } }   (both forms, one switch)
+   The non-parameter port "self:" has an entry without default.  While /d/on is off the walk does not
+   look at the table of d/ but is applied to /d/on; /b/on is reported by the walk of the root table
+   (inner switch) - in both states exactly the live ports. *)
+Definition self_tree : list pt :=
+  [ PLeaf [120] None (ld KI [VI 3]);
+    PSub [100] None None None
+      [ PAux [115; 101; 108; 102] (Some [111; 110]); PLeaf [111; 110] None (ld KT [VT false]);
+        PLeaf [121] None (ld KI [VI 3]);
+        PSub [101] None None None [ PLeaf [122] None (ld KI [VI 3]) ] ];
+    PSub [98] None None (Some [98; 47; 111; 110])
+      [ PAux [115; 101; 108; 102] (Some [111; 110]); PLeaf [119] None (ld KI [VI 3]);
+        PLeaf [111; 110] None (ld KT [VT false]) ] ].
+Definition self_state : state := [[VI 3]; [VI 0]; [VT true]; [VI 3]; [VI 3]; [VI 0]; [VI 3]; [VT false]].
+
+Theorem walk_rself_nonvacuous :
+  let a := app_of_tree self_tree in
+  names_ok (sports_of self_tree) = true /\ switches_ok self_tree = true /\
+  NoDup (map dir_addr (dirs_root self_tree)) /\ NoDup (map p_path a) /\ NoDup (app_addresses a) /\
+  (forall i, (i < length a)%nat -> (0 < p_len (port_at a i))%nat) /\
+  map (fun p => (p_path p, p_soft p, p_nodef p)) a =
+    [ ([47; 120], [], false);
+      ([47; 100; 47; 115; 101; 108; 102], [2%nat], true);    ([47; 100; 47; 111; 110], [], false);
+      ([47; 100; 47; 121], [2%nat], false);                  ([47; 100; 47; 101; 47; 122], [2%nat], false);
+      ([47; 98; 47; 115; 101; 108; 102], [7%nat; 7%nat], true);
+      ([47; 98; 47; 119], [7%nat; 7%nat], false);            ([47; 98; 47; 111; 110], [], false) ] /\
+  walk_tree self_tree (initial a) = [0; 2; 7]%nat /\
+  filter (live a (initial a)) (seq 0 (length a)) = [0; 2; 7]%nat /\
+  walk_tree self_tree self_state = [0; 1; 2; 3; 4; 7]%nat /\
+  filter (live a self_state) (seq 0 (length a)) = [0; 1; 2; 3; 4; 7]%nat.
+Proof.
+  intros a. unfold a.
+  split; [vm_compute; reflexivity|]. split; [vm_compute; reflexivity|].
+  split; [vm_compute; repeat constructor; simpl; intuition discriminate|].
+  split; [vm_compute; repeat constructor; simpl; intuition discriminate|].
+  split; [vm_compute; repeat constructor; simpl; intuition discriminate|].
+  split.
+  { intros i Hi. change (length (app_of_tree self_tree)) with 8%nat in Hi.
+    do 8 (destruct i as [|i]; [vm_compute; lia|]). lia. }
+  repeat split; vm_compute; reflexivity.
 Qed.
